@@ -49,6 +49,8 @@ def _norm_map(t):
     if t[0] == "call" and t[1] == SUM and len(t[2]) == 1 and t[2][0][0] == "call" and t[2][0][1] == ("glob", "ext:builtins.map") and len(t[2][0][2]) == 2:
         f, xs = t[2][0][2]
         prog, cls = _PROG.get("prog"), _PROG.get("cls")
+        if f[0] == "call" and f[1][0] == "glob" and f[1][1] in ("ext:operator.attrgetter",) and len(f[2]) == 1 and f[2][0][0] == "const" and isinstance(f[2][0][1], str) and "." not in f[2][0][1]:
+            return ("call", SUM, (("comp", "gen", ("attr", ("bound", "x"), f[2][0][1]), ((("bound", "x"), xs, ()),)),), ())
         if f[0] == "attr" and f[1] == SELF and prog is not None:
             m = prog.lookup_method(cls, f[2])
             if m is not None and len(m.params()) == 1:
@@ -56,6 +58,25 @@ def _norm_map(t):
                 outs = it.run(env={("sym", m.params()[0]): ("bound", "x")})
                 if len(outs) == 1 and outs[0].kind == "return":
                     return ("call", SUM, (("comp", "gen", strip_sites(outs[0].value), ((("bound", "x"), xs, ()),)),), ())
+    # sum(gen())  where gen is a local generator function `for x in xs: yield elt`
+    if t[0] == "call" and t[1] == SUM and len(t[2]) == 1 and t[2][0][0] == "call" and t[2][0][1][0] == "glob" and not t[2][0][2]:
+        prog = _PROG.get("prog")
+        g = prog.functions.get(t[2][0][1][1]) if prog is not None else None
+        if g is not None and g.parent is not None:
+            body = [st for st in g.node.body if not (isinstance(st, ast.Expr) and isinstance(st.value, ast.Constant))]
+            if len(body) == 1 and isinstance(body[0], ast.For) and len(body[0].body) == 1 and isinstance(body[0].body[0], ast.Expr) and isinstance(body[0].body[0].value, ast.Yield) and isinstance(body[0].target, ast.Name):
+                loop = body[0]
+                it = Interp(prog, g.parent)
+                it._funcstack.append(g)
+                p = Path()
+                p.env[("sym", loop.target.id)] = ("bound", loop.target.id)
+                try:
+                    src = it.eval(loop.iter, p)
+                    elt = it.eval(loop.body[0].value.value, p)
+                except Undecided:
+                    return t
+                if len(src) == 1 and len(elt) == 1 and src[0][0] == "value" and elt[0][0] == "value":
+                    return ("call", SUM, (("comp", "gen", strip_sites(elt[0][2]), ((("bound", loop.target.id), strip_sites(src[0][2]), ()),)),), ())
     return t
 
 
@@ -151,8 +172,13 @@ def composite_rules(chk, qual, weighted):
         if tw is None:
             raise Undecided("no private property summing the children's weights", cls.node)
         outs = make_interp(chk, tw).run()
+        rets = {N(o.value) for o in outs if o.kind == "return"}
+        if len(rets) > 1 and any(e[0] == "branch" and e[4] == "forked" and e[1][0] == "cmp" for o in outs for e in o.path.events):
+            conds = sorted({show(e[1]) for o in outs for e in o.path.events if e[0] == "branch" and e[4] == "forked"})
+            chk.bad("O7.3", tw.qual, "the total weight is not the plain sum of the children's weights but depends on %s: small positive weights are treated as zero, shares stop being proportional and the fitness leaves the children's range" % "; ".join(conds), node=tw.node, stmt="total-thresholded")
+            return
         if len(outs) != 1 or outs[0].kind != "return":
-            raise Undecided("_total_weight is not a single expression", tw.node)
+            raise Undecided("the total weight is not a single expression", tw.node)
         total = N(outs[0].value)
         s = sum_over_children(total)
         chk.count()
@@ -376,6 +402,24 @@ def composite_rules(chk, qual, weighted):
             chk.ok("O7.4", cls.qual, "utilisation and allocation are identical under the attribute swap", node=cls.node)
 
 
+def children_kept(chk, qual):
+    """O7.2: every constructor path binds a fresh container of the given children to the instance"""
+    prog = chk.program
+    init = prog.method(qual, "__init__")
+    ok = True
+    for o in Interp(prog, init, assert_raises=False).run():
+        chk.count()
+        if o.kind not in ("normal", "return"):
+            continue
+        st = [e[2] for e in o.path.events if e[0] == "store" and e[1] == ("attr", SELF, "children")]
+        if not st or ("sym", "children") not in list(subterms(st[-1])):
+            conds = "; ".join("%s is %s" % (show(e[1]), e[2]) for e in o.path.events if e[0] == "branch" and e[4] == "forked")
+            chk.bad("O7.2", init.qual, "the constructor can complete without binding its own list of children to the instance%s: the class-level `children` list is then shared by every such composite" % (" (when %s)" % conds if conds else ""), node=init.node, stmt="children-not-bound")
+            ok = False
+    if ok:
+        chk.ok("O7.2", init.qual, "every constructor path binds a fresh container of the given children", node=init.node)
+
+
 def weight_validation(chk):
     prog = chk.program
     _PROG.update(prog=prog, wcls=prog.cls(WEIGHTED))
@@ -411,3 +455,5 @@ def run(chk):
     chk.guard("O7.1", UNIFORM, composite_rules, chk, UNIFORM, False)
     chk.guard("O7.1", WEIGHTED, composite_rules, chk, WEIGHTED, True)
     chk.guard("O7.6", WEIGHTED, weight_validation, chk)
+    chk.guard("O7.2", UNIFORM, children_kept, chk, UNIFORM)
+    chk.guard("O7.2", WEIGHTED, children_kept, chk, WEIGHTED)
